@@ -120,3 +120,30 @@ func PinnedSkipCopyIndexAddr(name string) *Case {
 	c.Feature("skipcopy", "true")
 	return c
 }
+
+// PinnedUnsafePointer: unsafe.Pointer values (opaque handles, copied like basics) that have to be wrapped into a
+// pointer: the result must point to a copy of the handle, never into the source's struct, backing array or map.
+func PinnedUnsafePointer(name string) *Case {
+	c := &Case{Name: name, Root: "vcase/" + name}
+	src := &Package{Path: "src", Name: "src", Files: map[string]string{"handle.go": "package src\n\nimport \"unsafe\"\n\ntype UP = unsafe.Pointer\n"}}
+	tgt := &Package{Path: "tgt", Name: "tgt", Files: map[string]string{"handle.go": "package tgt\n\nimport \"unsafe\"\n\ntype UP = unsafe.Pointer\n"}}
+	conv := &Package{Path: "conv", Name: "conv"}
+	up := func() *Type { return RawType(KChan, "UP") }
+	s := &Decl{Pkg: src, Name: "In", Under: Struct(F("H", up()), F("L", Slice(up())), F("M", Map(Basic("string"), up())), F("N", Basic("int")))}
+	t := &Decl{Pkg: tgt, Name: "Out", Under: Struct(F("H", Ptr(up())), F("L", Slice(Ptr(up()))), F("M", Map(Basic("string"), Ptr(up()))), F("N", Ptr(Basic("int"))))}
+	sl := &Decl{Pkg: src, Name: "InL", Under: Slice(up())}
+	tl := &Decl{Pkg: tgt, Name: "OutL", Under: Slice(Ptr(up()))}
+	src.Decls = []*Decl{s, sl}
+	tgt.Decls = []*Decl{t, tl}
+	c.Pkgs = []*Package{src, tgt, conv}
+	cv := simpleConv(conv, "Converter", "struct", nil,
+		method1("M0", Ptr(Named(s)), Ptr(Named(t))),
+		method1("M1", Named(sl), Named(tl)),
+		method1("M2", Slice(Named(s)), Slice(Named(t))))
+	cv.Spec = &vref.Spec{Seed: 1, NValues: 12, Monitors: []string{"value", "intact", "alias", "mutate"}}
+	c.Convs = []*Converter{cv}
+	c.Patterns = []string{"./conv"}
+	c.Feature("tag", "pinned")
+	c.Feature("leaf", "unsafe.Pointer")
+	return c
+}
